@@ -1,6 +1,7 @@
 package main
 
 import (
+	"sync/atomic"
 	"encoding/json"
 	"flag"
 	"fmt"
@@ -210,10 +211,18 @@ func discharge0(o *Obligation, timeout time.Duration) (r OblResult) {
 			o = &Obligation{Name: o.Name, Kind: o.Kind, Func: o.Func, Facts: append(append([]*Term(nil), o.Facts...), der...), Goal: o.Goal, Detail: o.Detail, Pos: o.Pos, Uses: o.Uses, Axioms: o.Axioms}
 			r.Info += fmt.Sprintf("%d ground instances of group axioms; ", len(der))
 			if os.Getenv("GOVC_DEBUG") != "" {
-				for _, d := range der[max(0, len(der)-6):] {
+				for _, d := range der[max(0, len(der)-60):] {
 					fmt.Fprintf(os.Stderr, "ginst: %s\n", d.str(2))
 				}
 				fmt.Fprintf(os.Stderr, "ginst goal: %s\n", o.Goal.str(2))
+				if o.Goal.op == OEq {
+					for _, d := range der {
+						if d.op == OEq && (d.args[0] == o.Goal.args[0] || d.args[1] == o.Goal.args[0]) {
+							fmt.Fprintf(os.Stderr, "ginst GOAL-LHS derived: %s\n", d.args[1].args[1].str(-8)+" ;; "+d.args[1].args[2].str(-8))
+						}
+					}
+					fmt.Fprintf(os.Stderr, "ginst GOAL-RHS: %s\n", o.Goal.args[1].args[1].str(-8)+" ;; "+o.Goal.args[1].args[2].str(-8))
+				}
 			}
 		}
 	}
@@ -236,8 +245,8 @@ func discharge0(o *Obligation, timeout time.Duration) (r OblResult) {
 			o = &Obligation{Name: o.Name, Kind: o.Kind, Func: o.Func, Facts: append(append([]*Term(nil), o.Facts...), extra...), Goal: o.Goal, Detail: o.Detail, Pos: o.Pos, Uses: o.Uses, Axioms: o.Axioms, Alg: o.Alg}
 		}
 	}
-	// p ==> forall k. B : assume p
-	for o.Goal != nil && o.Goal.op == OImp && o.Goal.args[1].op == OForall {
+	// p ==> q : assume p
+	for o.Goal != nil && o.Goal.op == OImp {
 		o = &Obligation{Name: o.Name, Kind: o.Kind, Func: o.Func, Facts: append(append([]*Term(nil), o.Facts...), o.Goal.args[0]), Goal: o.Goal.args[1], Detail: o.Detail, Pos: o.Pos, Uses: o.Uses, Axioms: o.Axioms, Alg: o.Alg}
 	}
 	// a universally quantified goal is proved for a fresh constant
@@ -269,6 +278,38 @@ func discharge0(o *Obligation, timeout time.Duration) (r OblResult) {
 		if inst := instantiateQuantifiers(o.Facts, o.Goal); len(inst) > 0 {
 			o = &Obligation{Name: o.Name, Kind: o.Kind, Func: o.Func, Facts: append(append([]*Term(nil), o.Facts...), inst...), Goal: o.Goal, Detail: o.Detail, Pos: o.Pos, Uses: o.Uses, Axioms: o.Axioms, Alg: o.Alg}
 			r.Info += fmt.Sprintf("%d instances of quantified assumptions; ", len(inst))
+		}
+	}
+	// a goal  X == lc2(Q, a, b)  whose left side has a derived closed form lc2(Q, a', b') reduces to
+	// the integer goals a' == a and b' == b (sufficient by congruence)
+	if o.Goal != nil && o.Goal.op == OEq && o.Goal.args[0].sort == Sort("Pt") {
+		lhs, rhs := o.Goal.args[0], o.Goal.args[1]
+		if rhs.op != OUF || rhs.name != "lc2" {
+			lhs, rhs = rhs, lhs
+		}
+		if rhs.op == OUF && rhs.name == "lc2" {
+			for _, d := range o.Facts {
+				if d.op != OEq || d.args[0] != lhs {
+					continue
+				}
+				cf := d.args[1]
+				if cf.op == OUF && cf.name == "lc2" && cf.args[0] == rhs.args[0] {
+					g := And(Eq(cf.args[1], rhs.args[1]), Eq(cf.args[2], rhs.args[2]))
+					o = &Obligation{Name: o.Name, Kind: o.Kind, Func: o.Func, Facts: o.Facts, Goal: g, Detail: o.Detail, Pos: o.Pos, Uses: o.Uses, Axioms: o.Axioms, Alg: o.Alg}
+					r.Info += "reduced to the coefficients of the linear combination; "
+					break
+				}
+			}
+		}
+	}
+	// focused attempt: only the quantifier-free assumptions that share symbols with the goal
+	if o.Goal != nil {
+		if foc := relevantAll(o.Facts, o.Goal, 3, 400); len(foc) > 0 && len(foc) < len(o.Facts) {
+			qa := &Query{Facts: foc, Goal: o.Goal, AbstractNL: true}
+			if sa := Solve(qa, 3*time.Second, false, nil); sa.Verdict == "unsat" {
+				r.Verdict, r.Backend, r.Script = "proved", sa.Solver+"(focused,nl-abstracted)", sa.Script
+				return r
+			}
 		}
 	}
 	// solver stage: consult the verdict memo first (memo.go)
@@ -339,6 +380,9 @@ func discharge0(o *Obligation, timeout time.Duration) (r OblResult) {
 	return r
 }
 
+// maxNotProved: stop attempting obligations after this many have failed (0 = no limit)
+var maxNotProved int64
+
 func dischargeAll(obls []*Obligation, timeout time.Duration, par int) []OblResult {
 	res := make([]OblResult, len(obls))
 	if os.Getenv("GOVC_PAR") != "" {
@@ -356,13 +400,23 @@ func dischargeAll(obls []*Obligation, timeout time.Duration, par int) []OblResul
 	}
 	var wg sync.WaitGroup
 	sem := make(chan struct{}, par)
+	var notProved int64
 	for i, o := range obls {
 		wg.Add(1)
 		sem <- struct{}{}
 		go func(i int, o *Obligation) {
 			defer wg.Done()
 			defer func() { <-sem }()
+			// once many obligations have failed the verdict is settled: the remaining ones are
+			// skipped (reported as such, never counted as discharged)
+			if maxNotProved > 0 && atomic.LoadInt64(&notProved) >= maxNotProved {
+				res[i] = OblResult{Name: o.Name, Kind: o.Kind, Func: o.Func, Detail: o.Detail, Pos: o.Pos, Verdict: "skipped", Backend: "none", Info: "not attempted: the failure limit of this run was reached"}
+				return
+			}
 			res[i] = discharge(o, timeout)
+			if res[i].Verdict != "proved" {
+				atomic.AddInt64(&notProved, 1)
+			}
 		}(i, o)
 	}
 	wg.Wait()
@@ -688,6 +742,66 @@ func iffForallFacts(facts []*Term) []*Term {
 		out = append(out, Imp(p, q))
 		w := FreshVar("wit", q.args[0].sort)
 		out = append(out, Imp(Not(p), Not(substitute(q.args[1], map[int]*Term{q.args[0].id: w}, map[int]*Term{}))))
+	}
+	return out
+}
+
+// relevantAll selects the quantifier-free facts connected to the goal through shared
+// variables / applications / selects within the given number of rounds (at most max facts).
+func relevantAll(facts []*Term, goal *Term, rounds, max int) []*Term {
+	symsOf := func(t *Term) map[int]bool {
+		m := map[int]bool{}
+		walk(t, map[int]bool{}, func(x *Term) {
+			if x.op == OVar || (x.op == OUF && len(x.args) > 0) || x.op == OSelect {
+				m[x.id] = true
+			}
+		})
+		return m
+	}
+	flat := flattenFacts(facts)
+	cur := symsOf(goal)
+	taken := make([]bool, len(flat))
+	fs := make([]map[int]bool, len(flat))
+	var out []*Term
+	for r := 0; r < rounds; r++ {
+		added := false
+		next := map[int]bool{}
+		for i, f := range flat {
+			if taken[i] {
+				continue
+			}
+			if fs[i] == nil {
+				if len(quantifierFree([]*Term{f})) == 0 {
+					taken[i] = true
+					continue
+				}
+				fs[i] = symsOf(f)
+			}
+			hit := false
+			for id := range fs[i] {
+				if cur[id] {
+					hit = true
+					break
+				}
+			}
+			if hit {
+				taken[i] = true
+				out = append(out, f)
+				added = true
+				for id := range fs[i] {
+					next[id] = true
+				}
+				if len(out) >= max {
+					return out
+				}
+			}
+		}
+		for id := range next {
+			cur[id] = true
+		}
+		if !added {
+			break
+		}
 	}
 	return out
 }
